@@ -30,9 +30,16 @@
    which the shoelace products and the ray-casting quotient comparison are exact).
    Way.Polygon() (polygon.go) is property C18's model [C18.Model.way_polygon] applied to the rule
    table re-read from /repo ([way_area]); C18 proves it total, so the default is never taken.
-   Identifiers are small non-negative integers (FeatureID packing is injective on [0,2^40)). *)
+   Identifiers are any int64.  Two places of the package go through the packed osm.FeatureID
+   (type code in bits 56-62, 40 bits of ref in bits 16-55): the keys of ctx.relationMember
+   (convert.go 60-90, read back by addMetaProperties and the node pass) and the identity tail of
+   buildPolygon (featureID.Type(), featureID.Ref()).  Both are modelled through the packing
+   functions regenerated from /repo's node.go/way.go/relation.go/feature.go (gen/GenIds.v, property
+   C10): [fid], [unpack].  On ids outside [0,2^40) the packing loses information; the model
+   follows the code there (known finding polygon-id-outside-packed-range). *)
 From Coq Require Import ZArith String List Bool.
 From VerifGen Require Import GenTags.
+From VerifGen Require GenIds.
 From Verif Require C18.Model.
 Import ListNotations.
 Open Scope string_scope.
@@ -43,12 +50,30 @@ Definition pt := (Z * Z)%type.
 Definition pt_eqb (a b : pt) : bool := (fst a =? fst b) && (snd a =? snd b).
 Definition tags := list (string * string).
 
-Inductive etype := TNode | TWay | TRel.
+(* TNone: the type "" that FeatureID.Type() answers for type bits that are none of node, way,
+   relation; it only ever occurs in the identity of a feature, never as the type of a member *)
+Inductive etype := TNode | TWay | TRel | TNone.
 Definition etype_eqb (a b : etype) : bool :=
   match a, b with
-  | TNode, TNode | TWay, TWay | TRel, TRel => true
+  | TNode, TNode | TWay, TWay | TRel, TRel | TNone, TNone => true
   | _, _ => false
   end.
+
+(* the packed osm.FeatureID of an element or member: NodeID/WayID/RelationID.FeatureID() *)
+Definition fid (t : etype) (r : Z) : Z :=
+  match t with
+  | TNode => GenIds.NodeID_FeatureID r
+  | TWay => GenIds.WayID_FeatureID r
+  | TRel => GenIds.RelationID_FeatureID r
+  | TNone => 0
+  end.
+Definition etype_of_name (s : string) : etype :=
+  if String.eqb s GenIds.c_TypeNode then TNode
+  else if String.eqb s GenIds.c_TypeWay then TWay
+  else if String.eqb s GenIds.c_TypeRelation then TRel
+  else TNone.
+(* what buildPolygon reads back: featureID.Type(), featureID.Ref() *)
+Definition unpack (f : Z) : etype * Z := (etype_of_name (GenIds.FeatureID_Type f), GenIds.FeatureID_Ref f).
 
 (* Timestamp: None = the zero time.Time; otherwise unix seconds *)
 Record meta := { mt_ts : option Z; mt_version : Z; mt_changeset : Z; mt_user : string; mt_uid : Z }.
@@ -146,10 +171,11 @@ Definition member_counts (o : opts) (d : osm) (m : member) : bool :=
   negb (noRelM o && negb (etype_eqb (m_type m) TNode)) &&
   (if etype_eqb (m_type m) TWay then is_some (way_lookup d (m_ref m)) else true).
 
+(* ctx.relationMember[key.FeatureID()]: the map is keyed by the PACKED id *)
 Definition rel_summaries (o : opts) (d : osm) (key : etype * Z) : list summary :=
   flat_map (fun r =>
     flat_map (fun m =>
-      if member_counts o d m && etype_eqb (m_type m) (fst key) && (m_ref m =? snd key)
+      if member_counts o d m && (fid (m_type m) (m_ref m) =? fid (fst key) (snd key))
       then [{| s_id := r_id r; s_role := m_role m; s_tags := tags_map (r_tags r) |}]
       else []) (r_members r)) (relations d).
 
@@ -164,6 +190,17 @@ Definition mk_feature (o : opts) (d : osm) (ty : etype) (ref : Z) (ts : tags) (t
            (m : meta) (g : geom) : feature :=
   {| f_id := if noID o then None else Some (ty, ref);
      f_type := ty; f_ref := ref; f_tags := tags_map ts; f_tainted := tainted;
+     f_rels := if noRelM o then None else Some (rel_summaries o d (ty, ref));
+     f_meta := if noMeta o then None else Some (meta_obs m);
+     f_geom := g |}.
+
+(* buildPolygon's identity tail: id, "id" and "type" come from tagObject.FeatureID() read back
+   through Type() and Ref(); the memberships and meta are looked up with the element itself *)
+Definition mk_poly_feature (o : opts) (d : osm) (ty : etype) (ref : Z) (ts : tags) (tainted : bool)
+           (m : meta) (g : geom) : feature :=
+  let k := unpack (fid ty ref) in
+  {| f_id := if noID o then None else Some k;
+     f_type := fst k; f_ref := snd k; f_tags := tags_map ts; f_tainted := tainted;
      f_rels := if noRelM o then None else Some (rel_summaries o d (ty, ref));
      f_meta := if noMeta o then None else Some (meta_obs m);
      f_geom := g |}.
@@ -390,7 +427,10 @@ Section Convert.
   Definition add_inners (incl : bool) (mp0 : list poly) (inner : list seg) : list poly :=
     fold_left (fun mp s => add_to_mp mp (ring_of (-1) s) incl) (join inner) mp0.
 
-  Definition poly_result (o : opts) (d : osm) (r : relation) : list Z * option feature :=
+  (* [mk]: the identity tail (mk_poly_feature in the model; the proofs compare with mk_feature,
+     which is the same on ids in [0,2^40): C17/ProofsPacked.v) *)
+  Definition poly_result_with (mk : opts -> osm -> etype -> Z -> tags -> bool -> meta -> geom -> feature)
+             (o : opts) (d : osm) (r : relation) : list Z * option feature :=
     let steps := map (poly_step d (r_tags r)) (r_members r) in
     let outer := flat_map ps_outer steps in
     let inner := flat_map ps_inner steps in
@@ -408,18 +448,19 @@ Section Convert.
           else
             let g := GPoly (oring :: map (ring_of (-1)) (join inner)) in
             if has_interesting (r_tags r) (Some old_style_ignore)
-            then (skips, Some (mk_feature o d TRel (r_id r) (r_tags r) tainted (r_meta r) g))
+            then (skips, Some (mk o d TRel (r_id r) (r_tags r) tainted (r_meta r) g))
             else (skips ++ [w_id w],
-                  Some (mk_feature o d TWay (w_id w) (w_tags w) tainted (w_meta w) g))
+                  Some (mk o d TWay (w_id w) (w_tags w) tainted (w_meta w) g))
       | _, _ =>
           let mp0 := outer_polys incl (map fst outer) in
           if is_nil mp0 && negb incl then (skips, None)
           else
             match mp_geom (add_inners incl mp0 inner) with
             | None => (skips, None)
-            | Some g => (skips, Some (mk_feature o d TRel (r_id r) (r_tags r) tainted (r_meta r) g))
+            | Some g => (skips, Some (mk o d TRel (r_id r) (r_tags r) tainted (r_meta r) g))
             end
       end.
+  Definition poly_result := poly_result_with mk_poly_feature.
 
   Definition rel_result (o : opts) (d : osm) (r : relation) : list Z * option feature :=
     let tt := tag_find (r_tags r) "type" in
